@@ -264,3 +264,56 @@ func VH_CONC3() {
 	db2.Close()
 	vf.Cover("CONC3.end")
 }
+
+// VH_CONC4: a reader whose Begin may fall anywhere inside another goroutine's two-key
+// commit reads one key, waits until that commit has returned, then reads the other key and
+// the first one again in the same transaction: its snapshot is fixed (repeatable reads) and
+// contains the commit completely or not at all (C05).
+func VH_CONC4() {
+	logger.SetLogger(vlog{})
+	cfg := Config{SkipListMaxLevel: 1, SkipListP: 0.5, MemtableByteThreshold: vf.Param("MEMTHR", 1000),
+		ImmutableBuffer: 1, DataBlockByteThreshold: 1, L0TargetNum: 1, LevelRatio: 1}
+	db, err := Open(vf.Dir(), cfg)
+	vf.Assert("CONC4.open", err == nil)
+	vx, vy := []byte{vf.Byte("vx")}, []byte{vf.Byte("vy")}
+	done := make(chan error, 1)
+	started := make(chan struct{})
+	go func() {
+		e := db.Update(func(txn *Txn) error {
+			if e := txn.Set("x", vx); e != nil {
+				return e
+			}
+			e := txn.Set("y", vy)
+			close(started) // the committer is on its way into Commit
+			return e
+		})
+		done <- e
+	}()
+	if vf.Param("WAITSTART", 1) == 1 {
+		<-started
+	}
+	txn := db.Begin(false)
+	x1, okx1 := txn.Get("x")
+	werr := <-done // the writer's commit has returned
+	y, oky := txn.Get("y")
+	x2, okx2 := txn.Get("x")
+	txn.Discard()
+	vf.Assert("CONC4.commit-ok", werr == nil)
+	vf.Assert("C05.conc4.repeatable-read", okx1 == okx2 && (!okx1 || vf.BytesEq(x1, x2)))
+	vf.Assert("C05.conc4.no-partial-commit", okx1 == oky)
+	if okx1 {
+		vf.Assert("C05.conc4.values", vf.And(vf.BytesEq(x1, vx), vf.BytesEq(y, vy)))
+		vf.Cover("CONC4.saw-commit")
+	} else {
+		vf.Cover("CONC4.saw-nothing")
+	}
+	// a transaction begun after the commit returned sees it
+	_ = db.View(func(t2 *Txn) error {
+		gx, ok := t2.Get("x")
+		vf.Assert("C05.conc4.later-reader-sees-commit", vf.And(ok, vf.BytesEq(gx, vx)))
+		return nil
+	})
+	vDrain(db)
+	db.Close()
+	vf.Cover("CONC4.end")
+}
